@@ -112,8 +112,12 @@ use memb.{s1} as {s1}
 use memb.{p2} as {p2}
 {p1} = 0.125
 dot({s2}) = {nested_a} * (1 - {s2}) - {nested_b} * {s2}
-    {nested_a} = {mmt_expr(e_a)}
-    {nested_b} = {mmt_expr(e_b)}
+    {nested_a} = {mmt_expr(e_a)} + sub_c * sub_k
+        sub_c = 0.5
+        sub_k = 0.25 * {s1}
+    {nested_b} = {mmt_expr(e_b)} - sub_c / sub_k
+        sub_c = 2
+        sub_k = 1.5 + 0.125 * {s1} * {s1}
 dot({s3}) = {nested_a} - {s3} * if({s1} < -1, 2, 3)
     {nested_a} = {mmt_expr(e_a3)}
 dot(w_dup) = -k_loc * w_dup + {s3}
@@ -351,7 +355,7 @@ def main(argv=None):
     return rep.finish(
         level="proof",
         rule="the shipped example.mmt and noble_1962.cellml (ToRORd in the thorough tier); generated .mmt models with two components, aliases, "
-             "variables nested under two different states with the same local names, same-named states in two components with same-named nested variables, a clamped state (derivative a literal 0), names that clash with sympy names (beta, gamma, E, I, S, N, ...), "
+             "variables nested under two different states with the same local names, a second level of nesting with the same local names under two branches of one state, same-named states in two components with same-named nested variables, a clamped state (derivative a literal 0), names that clash with sympy names (beta, gamma, E, I, S, N, ...), "
              "if(...), dot(x) read inside expressions and all operators; .ode-text models (whose intermediates may read state derivatives) converted to Myokit; derivatives compared at the initial state and 2 perturbed states",
         trusted_base=["Coq 8.16.1 kernel (the renaming model is partial)", "Myokit's parser, evaluator (evaluate_derivatives), unit system and sympy writer are oracles"],
         assumptions=["relative tolerance 1e-8 between Myokit's evaluation and the generated numpy rhs"],
